@@ -3,7 +3,7 @@
   charge gain agree; rates are 0 at vacant stations; peak = max aggregate current; total energy
   = integral of aggregate power.
 
-  Property theorems only (helpers: `Lemmas/LedgerBattery`, `LedgerSim`, `LedgerInv`, `LedgerStep`, `LedgerTotal`, `LedgerInterval`, `LedgerRerun`, `LedgerStatic`).
+  Property theorems only (helpers: `Lemmas/LedgerBattery`, `LedgerSim`, `LedgerInv`, `LedgerStep`, `LedgerTotal`, `LedgerInterval`, `LedgerRerun`, `LedgerStatic`, `LedgerResume`).
   Carrier: any linear ordered field `K`; `HasExp K` is an ARBITRARY function — the ledger of the
   two-stage battery is pure algebra on the dsoc value the code returns.
   Simulator-level theorems are about the full model `Acn.Sim` (the one the driver executes
@@ -17,6 +17,7 @@ import AcnProofs.Lemmas.LedgerExecEq
 import AcnProofs.Lemmas.LedgerBoundsRun
 import AcnProofs.Lemmas.LedgerRerun
 import AcnProofs.Lemmas.LedgerStatic
+import AcnProofs.Lemmas.LedgerResume
 
 set_option linter.unusedSectionVars false
 set_option linter.unusedVariables false
@@ -362,6 +363,101 @@ theorem rerun_session_energy_interval (cfg : Cfg K) (hn : StationsNodup cfg) (hv
   rerun_session_energy_interval_of_sessions cfg hn hv s1 (run_keeps_sessions cfg hn hv sched1 n1 s1 h1)
     sched n s h id e he
 
+/-! ### simulations that are INTERRUPTED AND RESUMED (`Lemmas/LedgerResume.lean`)
+
+  `run()` raises in some period `k` — while the events of the period are processed, in `scheduler.run()`, or in
+  `_update_schedules`: the three places before any pilot is applied — and is called again on the same object (with
+  the same or with another scheduler), any number of times.  The completed simulation is still a simulation in
+  C02's sense: every clause of the ledger holds for it, at every loop head.  The aborted period has moved the
+  occupancy and the ghost list of scheduler calls only; no EV has charged, nothing has been recorded.
+
+  Excluded, and necessarily so: a raise out of `update_pilots` / `_store_actual_charging_rates` (`Ledger.ApplyErr`:
+  `InvalidRateError` at station `j` after the stations before it have charged, numpy `IndexError`, a `ValueError` out
+  of `Battery.charge`).  That state carries delivered energy which no column of `charging_rates` records, and a resume
+  charges the same EVs once more for the same period.
+
+  The JSON half (`to_json` → `from_json` → `update_scheduler` → `run`) is in `AcnProofs/C02Json.lean`: the lemmas it
+  needs from C09 (`Lemmas/ResumeRun`, `RegistryWF2`) and `Lemmas/EventCoreSim` (imported here through
+  `LedgerInterval`) declare the same projection lemma names, so the two cannot be imported into one module. -/
+
+/-- a `run()` that was ABORTED (by anything but the pilots/rates half of a period), in ANY period — event periods
+    and the last period included —, with any scheduler and fuel: the state the simulator object is left in
+    satisfies the ledger invariant -/
+theorem ledger_invariant_aborted (cfg : Cfg K) (hn : StationsNodup cfg)
+    (sched : View K → Except EventCore.Err (Schedule K)) (n : Nat) (s : State K) (e : EventCore.Err)
+    (h : Sim.run cfg sched n (Sim.init cfg) = (s, some e)) (he : ¬ ApplyErr e) : Ledger.Inv cfg s :=
+  run_ledger_any hn sched n _ s (some e) (init_ledger cfg) h (fun e' h' => by cases h'; exact he)
+
+/-- INTERRUPTED AND RESUMED: the first `run()` (scheduler `sched1`) is aborted in any period, `run()` is called
+    again on the same object (scheduler `sched2` — the same one, repaired, or another) and reaches a loop head
+    without raising (in particular: completes): the ledger invariant holds there -/
+theorem ledger_invariant_resume (cfg : Cfg K) (hn : StationsNodup cfg)
+    (sched1 sched2 : View K → Except EventCore.Err (Schedule K)) (n1 n2 : Nat) (s1 s2 : State K) (e : EventCore.Err)
+    (h1 : Sim.run cfg sched1 n1 (Sim.init cfg) = (s1, some e)) (he : ¬ ApplyErr e)
+    (h2 : Sim.run cfg sched2 n2 s1 = (s2, none)) : Ledger.Inv cfg s2 :=
+  run_ledger hn sched2 n2 s1 s2 (ledger_invariant_aborted cfg hn sched1 n1 s1 e h1 he) h2
+
+/-- … and for ANY NUMBER of aborted and resumed `run()` calls, each with its own scheduler and fuel
+    (`Ledger.Resumed`: the states such a simulator object goes through) -/
+theorem ledger_invariant_resumed (cfg : Cfg K) (hn : StationsNodup cfg) (s : State K) (h : Resumed cfg s) :
+    Ledger.Inv cfg s :=
+  resumed_ledger hn h
+
+/-- the instance the property names: the scheduler raises in period `k` (and is `sched` otherwise) — whatever it
+    raises out of `schedule()`; the resumed run uses `sched` -/
+theorem ledger_invariant_resume_crash (cfg : Cfg K) (hn : StationsNodup cfg)
+    (sched : View K → Except EventCore.Err (Schedule K)) (k n1 n2 : Nat) (s1 s2 : State K)
+    (h1 : Sim.run cfg (fun v => if v.iter = k then .error .schedulerFailed else sched v) n1 (Sim.init cfg)
+            = (s1, some .schedulerFailed))
+    (h2 : Sim.run cfg sched n2 s1 = (s2, none)) : Ledger.Inv cfg s2 :=
+  ledger_invariant_resume cfg hn _ sched n1 n2 s1 s2 _ h1 schedulerFailed_not_applyErr h2
+
+/-- each EV of a resumed simulation: delivered energy = charge gained by its battery -/
+theorem sim_energy_eq_battery_gain_resumed (cfg : Cfg K) (hn : StationsNodup cfg) (s : State K)
+    (h : Resumed cfg s) (id : String) (e0 e : Ev K)
+    (h0 : evIn cfg.evs id = some e0) (he : evIn s.evs id = some e) :
+    e.delivered - e0.delivered = e.batt.charge - e0.batt.charge :=
+  (resumed_ledger hn h).gain id e0 e h0 he
+
+/-- each session of a resumed simulation: delivered energy = Σ over the periods so far of its OWN station's row,
+    `rates[st_x][τ] · V_st / 1000 · (period / 60)` with `V_st` the voltage the station was REGISTERED with
+    (`volt cfg`), over the periods in which the occupancy snapshot shows it connected there — the aborted period `k`
+    is counted once, with the rate recorded when it was finally simulated -/
+theorem session_energy_eq_sum_resumed (cfg : Cfg K) (hn : StationsNodup cfg) (s : State K)
+    (h : Resumed cfg s) (id : String) (e0 e : Ev K)
+    (h0 : evIn cfg.evs id = some e0) (he : evIn s.evs id = some e) :
+    e.delivered - e0.delivered =
+      ∑ τ ∈ range s.core.iter,
+        if occAt s.occLog τ (stationIndex cfg e0.station) = some id
+        then s.rates.get (stationIndex cfg e0.station) τ * volt cfg (stationIndex cfg e0.station) / 1000
+              * (cfg.period / 60)
+        else 0 :=
+  (resumed_ledger hn h).session_single hn h0 he
+
+/-- a resumed simulation: the recorded rate is 0 wherever the snapshot shows the station vacant, and in every period
+    that has not been simulated yet (the aborted period included, until it is simulated) -/
+theorem rate_zero_when_vacant_resumed (cfg : Cfg K) (hn : StationsNodup cfg) (s : State K)
+    (h : Resumed cfg s) (τ i : Nat) :
+    (τ < s.core.iter → i < cfg.stations.length → occAt s.occLog τ i = none → s.rates.get i τ = 0) ∧
+    (s.core.iter ≤ τ → s.rates.get i τ = 0) :=
+  ⟨(resumed_ledger hn h).vacant τ i, (resumed_ledger hn h).future τ i⟩
+
+/-- a resumed simulation: `peak` = max(0, max over ALL periods so far — those before the interruption and those
+    after it — of the recorded aggregate current) -/
+theorem peak_eq_max_resumed (cfg : Cfg K) (hn : StationsNodup cfg) (s : State K) (h : Resumed cfg s) :
+    0 ≤ s.peak ∧
+    (∀ τ < s.core.iter, ∑ i ∈ range cfg.stations.length, s.rates.get i τ ≤ s.peak) ∧
+    (s.peak = 0 ∨ ∃ τ < s.core.iter, s.peak = ∑ i ∈ range cfg.stations.length, s.rates.get i τ) :=
+  (resumed_ledger hn h).peak_spec
+
+/-- a resumed simulation: total energy delivered = Σ_τ aggregate_power(τ) · period/60 -/
+theorem total_energy_eq_integral_resumed (cfg : Cfg K) (hn : StationsNodup cfg)
+    (hid : (cfg.evs.map (·.session)).Nodup) (s : State K) (h : Resumed cfg s) :
+    (s.evs.map (·.delivered)).sum - (cfg.evs.map (·.delivered)).sum =
+      ∑ τ ∈ range s.core.iter,
+        (∑ i ∈ range cfg.stations.length, volt cfg i * s.rates.get i τ / 1000) * (cfg.period / 60) :=
+  (resumed_ledger hn h).total hn hid
+
 /-! ### non-vacuity (full model over ℚ; `exp` is never called by the ideal / stepwise laws) -/
 
 /-- ideal battery: 32 A at 1000 V for 60 min offers 32 kWh, the battery accepts its maximum 7 kW -/
@@ -441,6 +537,66 @@ example :
       = [7, 2, 29/4] ∧
     (Sim.run (Rerun.rerunCfg exCfg exS1) exSched2 8 (Sim.init (Rerun.rerunCfg exCfg exS1))).1.evs.map (·.batt.charge)
       = [12, 10, 37/4] := by
+  decide +kernel
+
+/-- the scheduler that raises in period `k` and is `exSched` otherwise -/
+def exCrash (k : Nat) : View ℚ → Except EventCore.Err (Schedule ℚ) :=
+  fun v => if v.iter = k then .error .schedulerFailed else exSched v
+
+/-- hypotheses of `ledger_invariant_resume(_crash)` on a concrete instance, for a crash in period 2 (an EVENT period:
+    x leaves A, y arrives on A; the events have been applied when the scheduler raises) and in period 1: the first
+    run aborts with `SchedulerFailed` at `iteration = k` with the period's events applied (y already on A) and nothing
+    recorded for period `k`; the resumed run completes with the rates, energies, battery charges, peak and occupancy log
+    of the uninterrupted run; the peak 14 was reached BEFORE the interruption of period 2 (7 + 7 in period 1) -/
+example :
+    (Sim.run exCfg (exCrash 2) 8 (Sim.init exCfg)).2 = some .schedulerFailed ∧
+    (Sim.run exCfg (exCrash 2) 8 (Sim.init exCfg)).1.core.iter = 2 ∧
+    ((Sim.run exCfg (exCrash 2) 8 (Sim.init exCfg)).1.core.occ "A").map (·.id) = some "y" ∧
+    (Sim.run exCfg (exCrash 2) 8 (Sim.init exCfg)).1.rates.rows = [[7, 7, 0, 0], [0, 7, 0, 0]] ∧
+    (Sim.run exCfg (exCrash 2) 8 (Sim.init exCfg)).1.peak = 14 ∧
+    (Sim.run exCfg exSched 8 (Sim.run exCfg (exCrash 2) 8 (Sim.init exCfg)).1).2 = none ∧
+    (Sim.run exCfg exSched 8 (Sim.run exCfg (exCrash 2) 8 (Sim.init exCfg)).1).1.rates.rows
+      = [[7, 7, 2, 0], [0, 7, 15/2, 0]] ∧
+    (Sim.run exCfg exSched 8 (Sim.run exCfg (exCrash 2) 8 (Sim.init exCfg)).1).1.evs.map (·.delivered)
+      = [14, 2, 29/4] ∧
+    (Sim.run exCfg exSched 8 (Sim.run exCfg (exCrash 2) 8 (Sim.init exCfg)).1).1.evs.map (·.batt.charge)
+      = [19, 10, 37/4] ∧
+    (Sim.run exCfg exSched 8 (Sim.run exCfg (exCrash 2) 8 (Sim.init exCfg)).1).1.peak = 14 ∧
+    (Sim.run exCfg exSched 8 (Sim.run exCfg (exCrash 2) 8 (Sim.init exCfg)).1).1.occLog =
+      [[some "x", none], [some "x", some "z"], [some "y", some "z"], [none, none]] ∧
+    (Sim.run exCfg (exCrash 1) 8 (Sim.init exCfg)).2 = some .schedulerFailed ∧
+    (Sim.run exCfg exSched 8 (Sim.run exCfg (exCrash 1) 8 (Sim.init exCfg)).1).1.evs.map (·.delivered)
+      = [14, 2, 29/4] := by
+  decide +kernel
+
+/-- … so the crash state and the resumed final state are `Resumed` states (two calls), and a simulator that is
+    interrupted TWICE (periods 1 and 2) and resumed twice is one too (three calls) -/
+example : Resumed exCfg (Sim.run exCfg exSched 8 (Sim.run exCfg (exCrash 2) 8 (Sim.init exCfg)).1).1 := by
+  refine Resumed.call exSched 8 (err := (Sim.run exCfg exSched 8 (Sim.run exCfg (exCrash 2) 8 (Sim.init exCfg)).1).2)
+    (Resumed.call (exCrash 2) 8 (err := (Sim.run exCfg (exCrash 2) 8 (Sim.init exCfg)).2) Resumed.init rfl ?_) rfl ?_
+  · intro e he
+    have : (Sim.run exCfg (exCrash 2) 8 (Sim.init exCfg)).2 = some .schedulerFailed := by decide +kernel
+    rw [this] at he; cases he; exact schedulerFailed_not_applyErr
+  · intro e he
+    have : (Sim.run exCfg exSched 8 (Sim.run exCfg (exCrash 2) 8 (Sim.init exCfg)).1).2 = none := by decide +kernel
+    rw [this] at he; cases he
+
+example :
+    (Sim.run exCfg (exCrash 2) 8 (Sim.run exCfg (exCrash 1) 8 (Sim.init exCfg)).1).2 = some .schedulerFailed ∧
+    (Sim.run exCfg exSched 8 (Sim.run exCfg (exCrash 2) 8 (Sim.run exCfg (exCrash 1) 8 (Sim.init exCfg)).1).1).2 = none ∧
+    (Sim.run exCfg exSched 8 (Sim.run exCfg (exCrash 2) 8 (Sim.run exCfg (exCrash 1) 8 (Sim.init exCfg)).1).1).1.rates.rows
+      = [[7, 7, 2, 0], [0, 7, 15/2, 0]] := by
+  decide +kernel
+
+/-- the exclusion is necessary: stations are served in registration order (A, then B); with a pilot B's EVSE refuses
+    (33 A > 32 A), x on A has already charged at 7 A for period 0 when `InvalidRateError` aborts the period, and
+    nothing is recorded — the invariant's `sess` clause fails in that state (7 kWh delivered, recorded sum 0) -/
+example :
+    (Sim.run exCfg (fun _ => .ok [("A", [16]), ("B", [33])]) 8 (Sim.init exCfg)).2 = some .invalidRate ∧
+    ApplyErr EventCore.Err.invalidRate ∧
+    (Sim.run exCfg (fun _ => .ok [("A", [16]), ("B", [33])]) 8 (Sim.init exCfg)).1.evs.map (·.delivered) = [7, 0, 0] ∧
+    (Sim.run exCfg (fun _ => .ok [("A", [16]), ("B", [33])]) 8 (Sim.init exCfg)).1.rates.rows = [[0, 0, 0], [0, 0, 0]] ∧
+    (Sim.run exCfg (fun _ => .ok [("A", [16]), ("B", [33])]) 8 (Sim.init exCfg)).1.core.iter = 0 := by
   decide +kernel
 
 end simex
